@@ -354,6 +354,39 @@ Theorem C14_hardlink_exact_effect :
     end.
 Proof. exact DynEffects.hardlink_exact. Qed.
 
+(* the kernel backend with every premise discharged but the tree's own: create(path, Directory) and remove_file /
+   remove_dir end in mkdirat's / unlinkat's effect on (the kernel's in-root walk of the parent path, the last
+   component), with the descriptor table exactly as it was *)
+Theorem C14_create_dir_kernel_backend :
+  forall s rp fz pfuel gh ps rs, StaticProofs.closed s -> fz <> 0%nat -> rs_kernel rs = true ->
+  forall t root path dirp name o m,
+  path_split path = Some (Ok (dirp, Some name)) -> has_nul dirp = false -> has_nul name = false ->
+  Static.tget t root = Some ROOT ->
+  kwalk s dirp false (has (N.lor OPENAT2_RESOLVE_RESOLVE (rs_flags rs)) RESOLVE_NO_SYMLINKS) = WOk o ->
+  Dyn.drun rp {| Dyn.ds := s; Dyn.dt := t; Dyn.dseen := [] |} (root_create fz true pfuel gh ps rs root path (IDirectory m)) =
+  match Dyn.create_sem s o name KDir with
+  | Dyn.EUnit s' => Dyn.DDone {| Dyn.ds := s'; Dyn.dt := Dyn.reloc (Dyn.NPB s) (Dyn.NPB s') t; Dyn.dseen := [] |} (Ok tt)
+  | Dyn.EErr e => Dyn.DDone {| Dyn.ds := s; Dyn.dt := t; Dyn.dseen := [] |} (Err (OsError e))
+  | Dyn.EOut => Dyn.DDone {| Dyn.ds := s; Dyn.dt := t; Dyn.dseen := [] |} (Err (OsError ENOSYS))
+  | Dyn.EOpen _ _ => Dyn.DNoFuel
+  end.
+Proof. exact DynEffects.create_dir_kernel. Qed.
+
+Theorem C14_remove_kernel_backend :
+  forall s rp fz pfuel gh ps rs, StaticProofs.closed s -> fz <> 0%nat -> rs_kernel rs = true ->
+  forall t root path dirp name o isdir,
+  path_split path = Some (Ok (dirp, Some name)) -> has_nul dirp = false -> has_nul name = false ->
+  Static.tget t root = Some ROOT ->
+  kwalk s dirp false (has (N.lor OPENAT2_RESOLVE_RESOLVE (rs_flags rs)) RESOLVE_NO_SYMLINKS) = WOk o ->
+  Dyn.drun rp {| Dyn.ds := s; Dyn.dt := t; Dyn.dseen := [] |} (root_remove_inode fz true pfuel gh ps rs root path isdir) =
+  match Dyn.unlink_sem s o name (if isdir then AT_REMOVEDIR else 0) with
+  | Dyn.EUnit s' => Dyn.DDone {| Dyn.ds := s'; Dyn.dt := Dyn.reloc (Dyn.NPB s) (Dyn.NPB s') t; Dyn.dseen := [] |} (Ok tt)
+  | Dyn.EErr e => Dyn.DDone {| Dyn.ds := s; Dyn.dt := t; Dyn.dseen := [] |} (Err (OsError e))
+  | Dyn.EOut => Dyn.DDone {| Dyn.ds := s; Dyn.dt := t; Dyn.dseen := [] |} (Err (OsError ENOSYS))
+  | Dyn.EOpen _ _ => Dyn.DNoFuel
+  end.
+Proof. exact DynEffects.remove_kernel. Qed.
+
 (* executed (non-vacuity): on a concrete tree the real model programs, run on the dynamic kernel by
    both backends, create a/b/new through the escaping link, refuse to rmdir a non-empty directory
    (ENOTEMPTY, tree unchanged), and move a directory with its content *)
@@ -400,3 +433,5 @@ Print Assumptions C14_create_file_exact_effect.
 Print Assumptions C14_rename_exact_effect.
 Print Assumptions C14_hardlink_exact_effect.
 Print Assumptions C14_create_file_refuses_o_path.
+Print Assumptions C14_create_dir_kernel_backend.
+Print Assumptions C14_remove_kernel_backend.
